@@ -131,7 +131,8 @@ def main(ck, tier, w):
         # another block than the record's, which the trace specification rightly refuses under C03)
         tr = w.sub('trace') if obs['verify'] and all(k in ('none', 'tx') for k in obs['kinds']) and i % 2 == 0 else None
         r = run.run_parser(d.path, cb, dump=w.mk('out') if cb == 'csvdump' else None, coin=coin,
-                           start=obs['start'] or None, verify=obs['verify'], trace=tr, skip='spend,create,eval,dump_row,bal_row')
+                           start=obs['start'] or None, end=None if obs['end'] == -1 else obs['end'], verify=obs['verify'], trace=tr,
+                           skip='spend,create,eval,dump_row,bal_row')
         if not obs['verify']:
             # without --verify altered bytes may still make a block undecodable: only intact chains are judged
             probs = judge(r, True, None, cb) if all(k == 'none' for k in obs['kinds']) else []
@@ -149,8 +150,8 @@ def main(ck, tier, w):
         ck.evals()
         ck.traces()
         if obs['verify'] and any(k != 'none' for k in obs['kinds'][obs['start']:]):
-            ck.distinct((obs['T'], tuple(obs['kinds']), obs['start'], obs['cb']))
-        ck.sample({'T': obs['T'], 'alterations': obs['kinds'], 'start': obs['start'], 'verify': obs['verify'], 'expected_exit': obs['exit'],
+            ck.distinct((obs['T'], tuple(obs['kinds']), obs['start'], obs['end'], obs['cb']))
+        ck.sample({'T': obs['T'], 'alterations': obs['kinds'], 'start': obs['start'], 'end': obs['end'], 'verify': obs['verify'], 'expected_exit': obs['exit'],
                    'expected_error_height': obs['errH']})
         if probs:
             ck.violation('; '.join(probs), {'scenario': obs, 'coin': coin, 'bit_flips': how, 'observed': r.brief(), 'tags': []})
